@@ -122,7 +122,8 @@ def r2(ctx):
 
 def r3(ctx):
     ctx.rule('C19.R3', 'AttributedItem::dumpString writes a text unquoted only if it contains neither the field separator nor '
-             'a quote at its start/end, wraps it in quotes otherwise and doubles every embedded quote', minimum=3)
+             'a quote at its start/end nor two adjacent quotes, wraps it in quotes otherwise and doubles every embedded quote',
+             minimum=4)
     fb = ctx.fb
     fn = fb.fn('ebusd::AttributedItem::dumpString')
     ctx.touch(fn)
@@ -144,6 +145,24 @@ def r3(ctx):
         ok_last = fn.needs_one_of(plain[0], [none, ('(%s < (%s.length() - #1))' % (q, fn.P(1)), True), ('(%s < (%s.size() - #1))' % (q, fn.P(1)), True)])
         ctx.ob('C19.R3', fn, plain[0], ok_first and ok_last, 'unquoted output with an embedded quote',
                'first quote not at the start: %s, not at the end: %s' % (ok_first, ok_last))
+        # ... and the text holds no two adjacent quotes: inside an unquoted field the reader takes a doubled quote as the
+        # start of quoted text and reads on across the following separators
+        atoms = set((a[0], a[1]) for a in fn.atoms(plain[0]))
+        nodbl = none in atoms or any(pol and '.find(' in k and k.endswith('== #18446744073709551615)') and
+                                     ('{#2,#34' in k or '"\\"\\""' in k or "#2,#34" in k) for k, pol in atoms)
+        if not nodbl:
+            # the test may be one alternative of a disjunction: every alternative under which the text is written plain
+            # has to exclude the doubled quote (or any quote)
+            p_ = fn.parent(plain[0])
+            while p_ is not None and fn.nodes[p_]['k'] != 'IfStmt':
+                p_ = fn.parent(p_)
+            if p_ is not None:
+                dnf = facts.implied(fn, fn.nodes[p_]['cond'], True)
+                def fine(conj):
+                    ks = [facts.atom_key(fn, a) for a in conj]
+                    return none in ks or any(pol and '.find(' in k and k.endswith('== #18446744073709551615)') and '#2,#34' in k for k, pol in ks)
+                nodbl = bool(dnf) and all(fine(c) for c in dnf)
+        ctx.ob('C19.R3', fn, plain[0], nodbl, 'unquoted output and doubled quotes', 'written plain only without two adjacent quotes: %s' % nodbl)
     else:
         raise AnalysisBroken('C19.R3: position of the first quote in dumpString not recognised')
     dbl = [nid for nid, v in fn.nodes.items() if v['k'] == 'CXXOperatorCallExpr' and v.get('op') == '<<' and v.get('args') and
